@@ -38,6 +38,14 @@ pub fn kmeans_spec() -> BuilderSpec {
             count_ge1("n_runs", "linfa-clustering/src/k_means/errors.rs:8 \"n_runs cannot be 0\"", 2, 10),
             gt0("tolerance", "linfa-clustering/src/k_means/errors.rs:10 \"tolerance must be greater than 0\"", 1e-4, 1e10),
             count_ge1("max_n_iterations", "linfa-clustering/src/k_means/errors.rs:12 \"max_n_iterations cannot be 0\"", 2, 300),
+            // free axis: no documented range ties the number of precomputed rows to n_clusters at checking
+            // time (k_means/init.rs:25 only describes the shape); KMeansInit::run asserts it during fit
+            // (init.rs:52), in both the checked and the unchecked form
+            free(
+                "init",
+                "linfa-clustering/src/k_means/init.rs:22-36 enum KMeansInit (no documented constraint at check time)",
+                vec![(Sym::S("kmeans_plusplus"), "default"), (Sym::S("random"), "random"), (Sym::S("kmeans_para"), "kmeans_para"), (Sym::S("precomputed_matching"), "precomputed_rows_eq_n_clusters"), (Sym::S("precomputed_2_rows"), "precomputed_2_rows")],
+            ),
         ],
         relation: no_relation,
         err_param: |e| {
@@ -57,11 +65,31 @@ pub fn kmeans_spec() -> BuilderSpec {
     }
 }
 
+fn nn_of(tag: &str) -> linfa_nn::CommonNearestNeighbour {
+    match tag {
+        "balltree" => linfa_nn::CommonNearestNeighbour::BallTree,
+        "linear" => linfa_nn::CommonNearestNeighbour::LinearSearch,
+        _ => linfa_nn::CommonNearestNeighbour::KdTree,
+    }
+}
+
+fn kmeans_init<F: Float>(tag: &str, n_clusters: usize) -> linfa_clustering::KMeansInit<F> {
+    use linfa_clustering::KMeansInit;
+    let rows = |n: usize| Array2::from_shape_fn((n, 2), |(i, _)| F::cast(i as f64 * 2.5));
+    match tag {
+        "random" => KMeansInit::Random,
+        "kmeans_para" => KMeansInit::KMeansPara,
+        "precomputed_matching" => KMeansInit::Precomputed(rows(n_clusters)),
+        "precomputed_2_rows" => KMeansInit::Precomputed(rows(2)),
+        _ => KMeansInit::KMeansPlusPlus,
+    }
+}
+
 fn kmeans<F: Float>(case: &Case, spec: &BuilderSpec, out: &mut Outcome) {
     let ds = DatasetBase::from(blobs::<F>());
     // n_clusters is a constructor argument (no setter): the history keeps it fixed
     let base = || KMeans::<F, L2Dist>::params_with(case.u("n_clusters") as usize, Xoshiro256Plus::seed_from_u64(42), L2Dist);
-    let set = |mut p: linfa_clustering::KMeansParams<F, Xoshiro256Plus, L2Dist>, c: &Case| { if c.moved(&["n_runs"]) { p = p.n_runs(c.u("n_runs") as usize); } if c.moved(&["tolerance"]) { p = p.tolerance(F::cast(c.f("tolerance"))); } if c.moved(&["max_n_iterations"]) { p = p.max_n_iterations(c.u("max_n_iterations")); } p };
+    let set = |mut p: linfa_clustering::KMeansParams<F, Xoshiro256Plus, L2Dist>, c: &Case| { if c.moved(&["n_runs"]) { p = p.n_runs(c.u("n_runs") as usize); } if c.moved(&["tolerance"]) { p = p.tolerance(F::cast(c.f("tolerance"))); } if c.moved(&["max_n_iterations"]) { p = p.max_n_iterations(c.u("max_n_iterations")); } if c.moved(&["init"]) { p = p.init_method(kmeans_init::<F>(c.s("init"), case.u("n_clusters") as usize)); } p };
     let make = || set(base(), case);
     let ops = vec![
         op(&make, "fit", |p| p.fit(&ds).map(|m| dbg(&m)).map_err(|e: KMeansError| dbg(&e)), |p| p.fit(&ds).map(|m| dbg(&m)).map_err(|e: KMeansError| dbg(&e)), |e| dbg(&KMeansError::from(e))),
@@ -80,6 +108,7 @@ pub fn dbscan_spec() -> BuilderSpec {
         params: vec![
             count_ge2("min_points", "linfa-clustering/src/dbscan/hyperparams.rs:28 \"min_points must be greater than 1\"", 3, 100),
             gt0("tolerance", "linfa-clustering/src/dbscan/hyperparams.rs:30 \"tolerance must be greater than 0\"", 0.5, 1e10),
+            free("nn_algo", "linfa-nn/src/lib.rs enum CommonNearestNeighbour (neighbour index used for the range queries)", vec![(Sym::S("kdtree"), "default"), (Sym::S("balltree"), "balltree"), (Sym::S("linear"), "linear")]),
         ],
         relation: no_relation,
         err_param: |e| {
@@ -98,7 +127,7 @@ pub fn dbscan_spec() -> BuilderSpec {
 fn dbscan<F: Float>(case: &Case, spec: &BuilderSpec, out: &mut Outcome) {
     let data = blobs::<F>();
     let base = || Dbscan::params::<F>(case.u("min_points") as usize);
-    let set = |mut p: linfa_clustering::DbscanParams<F, L2Dist, linfa_nn::CommonNearestNeighbour>, c: &Case| { if c.moved(&["tolerance"]) { p = p.tolerance(F::cast(c.f("tolerance"))); } p };
+    let set = |mut p: linfa_clustering::DbscanParams<F, L2Dist, linfa_nn::CommonNearestNeighbour>, c: &Case| { if c.moved(&["tolerance"]) { p = p.tolerance(F::cast(c.f("tolerance"))); } if c.moved(&["nn_algo"]) { p = p.nn_algo(nn_of(c.s("nn_algo"))); } p };
     let make = || set(base(), case);
     let ops = vec![
         op(&make, "transform", |p| p.transform(&data).map(|m| dbg(&m)).map_err(|e| dbg(&e)), |p| Ok(dbg(&p.transform(&data))), |e| dbg(&e)),
@@ -114,6 +143,7 @@ pub fn optics_spec() -> BuilderSpec {
         params: vec![
             count_ge2("min_points", "linfa-clustering/src/optics/hyperparams.rs:102 \"`min_points` must be greater than 1!\"", 3, 100),
             gt0("tolerance", "linfa-clustering/src/optics/hyperparams.rs:97 \"`tolerance` must be greater than 0!\"", 0.5, 1e10),
+            free("nn_algo", "linfa-nn/src/lib.rs enum CommonNearestNeighbour (neighbour index used for the range queries)", vec![(Sym::S("kdtree"), "default"), (Sym::S("balltree"), "balltree"), (Sym::S("linear"), "linear")]),
         ],
         relation: no_relation,
         err_param: |e| {
@@ -132,7 +162,7 @@ pub fn optics_spec() -> BuilderSpec {
 fn optics<F: Float>(case: &Case, spec: &BuilderSpec, out: &mut Outcome) {
     let data = blobs::<F>();
     let base = || Optics::params::<F>(case.u("min_points") as usize);
-    let set = |mut p: linfa_clustering::OpticsParams<F, L2Dist, linfa_nn::CommonNearestNeighbour>, c: &Case| { if c.moved(&["tolerance"]) { p = p.tolerance(F::cast(c.f("tolerance"))); } p };
+    let set = |mut p: linfa_clustering::OpticsParams<F, L2Dist, linfa_nn::CommonNearestNeighbour>, c: &Case| { if c.moved(&["tolerance"]) { p = p.tolerance(F::cast(c.f("tolerance"))); } if c.moved(&["nn_algo"]) { p = p.nn_algo(nn_of(c.s("nn_algo"))); } p };
     let make = || set(base(), case);
     let ops = vec![op(&make, "transform", |p| p.transform(data.view()).map(|m| dbg(&m)).map_err(|e| dbg(&e)), |p| Ok(dbg(&p.transform(data.view()))), |e| dbg(&e))];
     judge(case, spec, &base, &set, Some(&|p| p.clone()), &|p| dbg(p), &|c| dbg(c), ops, out);
@@ -162,6 +192,7 @@ pub fn gmm_spec() -> BuilderSpec {
                 vals: vec![(Sym::U(0), "zero", I, false), (Sym::U(1), "at_lower", V, false), (Sym::U(2), "inside", V, false)],
             },
             count_ge1("max_n_iterations", "linfa-clustering/src/gaussian_mixture/hyperparams.rs:190 \"`max_n_iterations` cannot be 0!\"", 2, 100),
+            free("init_method", "linfa-clustering/src/gaussian_mixture/hyperparams.rs:28 enum GmmInitMethod", vec![(Sym::S("kmeans"), "default"), (Sym::S("random"), "random")]),
         ],
         relation: no_relation,
         err_param: |e| {
@@ -179,7 +210,7 @@ pub fn gmm_spec() -> BuilderSpec {
 fn gmm<F: Float>(case: &Case, spec: &BuilderSpec, out: &mut Outcome) {
     let ds = DatasetBase::from(blobs::<F>());
     let base = || GaussianMixtureModel::<F>::params(case.u("n_clusters") as usize);
-    let set = |mut p: linfa_clustering::GmmParams<F, Xoshiro256Plus>, c: &Case| { if c.moved(&["tolerance"]) { p = p.tolerance(F::cast(c.f("tolerance"))); } if c.moved(&["reg_covar"]) { p = p.reg_covariance(F::cast(c.f("reg_covar"))); } if c.moved(&["n_runs"]) { p = p.n_runs(c.u("n_runs")); } if c.moved(&["max_n_iterations"]) { p = p.max_n_iterations(c.u("max_n_iterations")); } p };
+    let set = |mut p: linfa_clustering::GmmParams<F, Xoshiro256Plus>, c: &Case| { if c.moved(&["tolerance"]) { p = p.tolerance(F::cast(c.f("tolerance"))); } if c.moved(&["reg_covar"]) { p = p.reg_covariance(F::cast(c.f("reg_covar"))); } if c.moved(&["n_runs"]) { p = p.n_runs(c.u("n_runs")); } if c.moved(&["max_n_iterations"]) { p = p.max_n_iterations(c.u("max_n_iterations")); } if c.moved(&["init_method"]) { p = p.init_method(if c.s("init_method") == "random" { linfa_clustering::GmmInitMethod::Random } else { linfa_clustering::GmmInitMethod::KMeans }); } p };
     let make = || set(base(), case);
     let ops = vec![op(&make, "fit", |p| p.fit(&ds).map(|m| dbg(&m)).map_err(|e: GmmError| dbg(&e)), |p| p.fit(&ds).map(|m| dbg(&m)).map_err(|e: GmmError| dbg(&e)), |e| dbg(&e))];
     judge(case, spec, &base, &set, Some(&|p| p.clone()), &|p| dbg(p), &|c| dbg(c), ops, out);
